@@ -36,6 +36,23 @@ def parseOp? : List String → Option Op
   | ["purge"] => some .purge
   | _ => none
 
+/-- C11, larger alphabet (Model/Lru.lean `XOp`): commands of `Memory` beyond the regular ones.  They run on the
+ghost-instrumented model only (`mem` is kept equal to its store); the `TtlMap` spec does not know them. -/
+def parseXOp? : List String → Option XOp
+  | ["setlock", k, v, ttl] => do pure (.setLock (← k.toNat?) (← parseVal? v) (← parseTtl? ttl))
+  | ["islocked", k] => do pure (.isLocked (← k.toNat?))
+  | ["unlock", k, v] => do pure (.unlock (← k.toNat?) (← parseVal? v))
+  | ["setadd", k, ttl] => do pure (.setAdd (← k.toNat?) (← parseTtl? ttl))
+  | ["setremove", k] => do pure (.setRemove (← k.toNat?))
+  | ["setpop", k] => do pure (.setPop (← k.toNat?))
+  | ["sliceincr", k, ttl] => do pure (.sliceIncr (← k.toNat?) (← parseTtl? ttl))
+  | ["incrbits", k] => do pure (.incrBits (← k.toNat?))
+  | ["getbits", k] => do pure (.getBits (← k.toNat?))
+  | ["getraw", k] => do pure (.getRaw (← k.toNat?))
+  | ["getmatch"] => some .getMatch
+  | ["delmatch"] => some .delMatch
+  | _ => none
+
 def showKeys (ks : List Nat) : String := ",".intercalate (ks.map toString)
 
 def step (st : St) (line : String) : St × String :=
@@ -57,7 +74,12 @@ def step (st : St) (line : String) : St × String :=
     | [] => (st, "bad-op")
   | ws =>
     match parseOp? ws with
-    | none => (st, "bad-op")
+    | none =>
+      match parseXOp? ws with
+      | none => (st, "bad-op")
+      | some xop =>
+        let (l', o) := st.lru.xstep xop
+        ({ st with mem := l'.mem, lru := l' }, s!"model={showOut o} spec=-")
     | some op =>
       let (m', o) := st.mem.step op
       let (t', o') := st.spec.step op
